@@ -209,6 +209,7 @@ def build_shared_features_map(mod: fx.GraphModule,
                 # i.e. the case of input-connected or output-connected components,
                 if (
                     any(feeds_excluded_layer(n, mod, exclude_names, exclude_types) for n in c) or
+                    any(is_excluded_layer(n, mod, exclude_names, exclude_types) for n in c) or
                     any(n in get_graph_inputs(mod.graph) for n in c) or
                     any(n in get_graph_outputs(mod.graph) for n in c) or
                     any(n.meta.get('output_connected', False) for n in c)
@@ -227,8 +228,17 @@ def feeds_excluded_layer(n: fx.Node, mod: fx.GraphModule,
                          exclude_types: Iterable[Type[nn.Module]]) -> bool:
     """Returns True if one of the users of `n` is a layer that PIT could optimize, but that is
     excluded from the search: its input features cannot be pruned, since it is exported as is."""
-    return any(is_layer(u, mod, tuple(pit_layer_map.keys())) and
-               exclude(u, mod, exclude_names, exclude_types) for u in n.users)
+    return any(is_excluded_layer(u, mod, exclude_names, exclude_types) for u in n.users)
+
+
+def is_excluded_layer(n: fx.Node, mod: fx.GraphModule,
+                      exclude_names: Iterable[str],
+                      exclude_types: Iterable[Type[nn.Module]]) -> bool:
+    """Returns True if `n` is a layer that PIT could optimize, but that is excluded from the
+    search: its output features cannot be pruned either, so neither can those of the layers it
+    shares a features mask with (e.g. the other operand of a residual sum)."""
+    return is_layer(n, mod, tuple(pit_layer_map.keys())) and \
+        exclude(n, mod, exclude_names, exclude_types)
 
 
 def exclude(n: fx.Node, mod: fx.GraphModule,
